@@ -1,6 +1,8 @@
 """C05 - GOTO/GOSUB/RETURN, ON ERROR/RESUME: resume-address and error-code kernels (DESIGN 4/C05)."""
 from vklib import Builder
 import vmstep
+import vmctl
+import slicer
 
 # every variant of RuntimeError, constructed with the smallest payload
 RT_VARIANTS = """
@@ -151,6 +153,12 @@ def spec(tier, seed):
     # alone did not finish in 600 s: CBMC walks every arm of the 90-way instruction match, including the hash-map based ones,
     # even when the instruction is concrete.  They are not part of the check; see DESIGN 4/C05.)
 
+    notes = []
+    try:
+        vmctl.add(b, "vk_c05", [(g, m) for g in ("gosub", "errors") for m in (1, 2, 3, 4)])
+    except slicer.SliceError as e:
+        notes.append("the control arms of interpret_one could not be sliced from the current tree (%s): vk_c05_vm_step_* missing from this run" % e)
+
     err = b.file("rusty_basic/src/interpreter/error.rs", "rusty_basic", "interpreter::error")
     error_code_harnesses(b, err, "vk_c05")
     b.add(err, "vk_c05_error_conversions", """
@@ -177,6 +185,8 @@ def spec(tier, seed):
 
     return b.build(
         tier,
+        notes=notes,
+        stubs=[vmctl.STUB_NOTE],
         bounds="statement-address tables of 1..4 entries (quick) / 1..7 (thorough), addresses < 256; the RuntimeError enum exhaustively",
         outside="GOSUB/RETURN stack, handler dispatch and context push/pop in Interpreter::interpret; loop registers surviving a GOTO; "
                 "variables after a handled error; that the generator's marks really are non-decreasing and bracket every failing instruction",
